@@ -41,31 +41,25 @@ Definition in_range (a b c d w x y z : R) : Prop := Rabs (dot4 a b c d w x y z) 
 Lemma in_range_of_t a b c d w x y z t : 1/10000 <= t <= PI -> Rabs (dot4 a b c d w x y z) = cos (t/2) -> in_range a b c d w x y z.
 Proof. intros Ht Hd. unfold in_range. rewrite Hd. apply cos_half_guard. exact Ht. Qed.
 
-(* min(|p-q|, |p+q|) *)
-Lemma qd_lt1 dd : sqrt (2 + 2*dd) < sqrt (2 - 2*dd) -> sqrt (2 + 2*dd) = sqrt (2 - 2 * Rabs dd).
-Proof.
-  intros H. f_equal. destruct (Rle_dec 0 dd) as [Hd|Hd].
-  - exfalso. assert (sqrt (2 - 2*dd) <= sqrt (2 + 2*dd)) by (apply sqrt_le_1_alt; lra). lra.
-  - rewrite Rabs_left by lra. ring.
-Qed.
-Lemma qd_ge1 dd : Rabs dd <= 1 -> ~ sqrt (2 + 2*dd) < sqrt (2 - 2*dd) -> sqrt (2 - 2*dd) = sqrt (2 - 2 * Rabs dd).
-Proof.
-  intros B H. f_equal. destruct (Rle_dec 0 dd) as [Hd|Hd].
-  - rewrite Rabs_right by lra. ring.
-  - exfalso. apply H. apply Rabs_le_inv in B. apply sqrt_lt_1_alt. lra.
-Qed.
-Lemma qd_lt2 dd : sqrt (2 - 2*dd) < sqrt (2 + 2*dd) -> sqrt (2 - 2*dd) = sqrt (2 - 2 * Rabs dd).
-Proof.
-  intros H. f_equal. destruct (Rle_dec dd 0) as [Hd|Hd].
-  - exfalso. assert (sqrt (2 + 2*dd) <= sqrt (2 - 2*dd)) by (apply sqrt_le_1_alt; lra). lra.
-  - rewrite Rabs_right by lra. ring.
-Qed.
-Lemma qd_ge2 dd : Rabs dd <= 1 -> ~ sqrt (2 - 2*dd) < sqrt (2 + 2*dd) -> sqrt (2 + 2*dd) = sqrt (2 - 2 * Rabs dd).
-Proof.
-  intros B H. f_equal. destruct (Rle_dec dd 0) as [Hd|Hd].
-  - rewrite Rabs_left1 by lra. ring.
-  - exfalso. apply H. apply Rabs_le_inv in B. apply sqrt_lt_1_alt. lra.
-Qed.
+(* min(|p-q|, |p+q|): whichever comparison (<, <=, negated, either order) the code uses to pick the smaller norm, the
+   decisions are turned into facts on the sign of p.q and the leaf is closed at lra level *)
+Lemma qd_plus dd : dd <= 0 -> sqrt (2 + 2*dd) = sqrt (2 - 2 * Rabs dd).
+Proof. intros H. f_equal. rewrite Rabs_left1 by exact H. ring. Qed.
+Lemma qd_minus dd : 0 <= dd -> sqrt (2 - 2*dd) = sqrt (2 - 2 * Rabs dd).
+Proof. intros H. f_equal. rewrite Rabs_right by lra. ring. Qed.
+Lemma sqrt_le_inv x y : 0 <= x -> 0 <= y -> sqrt x <= sqrt y -> x <= y.
+Proof. intros Hx Hy H. apply sqrt_le_0; assumption. Qed.
+(* B : - 1 <= dd <= 1 must be in the context *)
+Ltac sqrt_cmp_facts :=
+  repeat match goal with
+  | H : ~ (sqrt _ < sqrt _) |- _ => apply Rnot_lt_le in H
+  | H : ~ (sqrt _ <= sqrt _) |- _ => apply Rnot_le_lt in H
+  | H : sqrt _ < sqrt _ |- _ => apply sqrt_lt_0_alt in H
+  | H : sqrt _ <= sqrt _ |- _ => apply sqrt_le_inv in H; [|lra|lra]
+  end.
+Ltac qd_leaf :=
+  try match goal with B : Rabs (dot4 _ _ _ _ _ _ _ _) <= 1 |- _ => apply Rabs_le_inv in B end;
+  sqrt_cmp_facts; first [ apply qd_plus; lra | apply qd_minus; lra ].
 
 (* ---- tactics over the generated decision trees (never on let-names) *)
 (* the two normalising square roots are 1 on unit quaternions; done before zeta so that only they are visited *)
@@ -137,8 +131,7 @@ Lemma qdist_spec a b c d w x y z : unit4 a b c d -> unit4 w x y z -> in_range a 
 Proof.
   intros Hp Hq Hg. start_quat Hp Hq Hg. unfold C18_qdist_R. unit_norms. canon_sqrt a b c d w x y z.
   repeat destr_dec;
-    first [ shortcut_dead a b c d w x y z
-          | val_eq; first [ apply qd_lt1; assumption | apply qd_ge1; assumption | apply qd_lt2; assumption | apply qd_ge2; assumption ] ].
+    first [ shortcut_dead a b c d w x y z | val_eq; qd_leaf ].
 Qed.
 
 (* ---- 1-D branch at coinciding rotations q = p and q = -p: exactly zero (through the shortcut) *)
@@ -207,8 +200,7 @@ Lemma qdist_batch_spec a b c d w x y z : unit4 a b c d -> unit4 w x y z ->
 Proof.
   intros Hp Hq. pose proof (unit4_dot_le1 _ _ _ _ _ _ _ _ Hp Hq) as B.
   unfold unit4 in Hp, Hq. orient_unit. unfold C18_qdist_batch_R. unit_norms. canon_sqrt a b c d w x y z.
-  repeat destr_dec; val_eq;
-    first [ apply qd_lt1; assumption | apply qd_ge1; assumption | apply qd_lt2; assumption | apply qd_ge2; assumption ].
+  repeat destr_dec; val_eq; qd_leaf.
 Qed.
 
 (* ---- closed forms in the relative angle *)
